@@ -66,15 +66,6 @@ impl<M: MagneticMoment> StandardizedMagneticCell<M> {
             epsilon,
         )?;
 
-        // Need to rotate magnetic moments because the standardization rotates the ref cell.
-        // `ref_std_cell.prim_cell` keeps the site order of the input primitive cell
-        // (`ref_std_cell.site_mapping` maps sites of the conventional cell, not of the primitive one).
-        let prim_std_magnetic_moments_tmp = prim_mag_cell
-            .magnetic_cell
-            .magnetic_moments
-            .iter()
-            .map(|m| m.act_rotation(&ref_std_cell.rotation_matrix, action))
-            .collect::<Vec<_>>();
         let cart_rotations = magnetic_symmetry_search
             .magnetic_operations
             .iter()
@@ -89,9 +80,11 @@ impl<M: MagneticMoment> StandardizedMagneticCell<M> {
             .map(|mops| mops.time_reversal)
             .collect::<Vec<_>>();
 
+        // `ref_std_cell.prim_cell` keeps the site order of the input primitive cell
+        // (`ref_std_cell.site_mapping` maps sites of the conventional cell, not of the primitive one).
         Self::new_from_ref_cell(
             &ref_std_cell,
-            &prim_std_magnetic_moments_tmp,
+            &prim_mag_cell.magnetic_cell.magnetic_moments,
             &cart_rotations,
             &time_reversals,
             &magnetic_symmetry_search.permutations,
@@ -101,20 +94,25 @@ impl<M: MagneticMoment> StandardizedMagneticCell<M> {
 
     fn new_from_ref_cell(
         ref_std_cell: &StandardizedCell,
-        prim_std_magnetic_moments_tmp: &[M],
+        prim_magnetic_moments: &[M],
         cart_rotations: &[Matrix3<f64>],
         time_reversals: &[bool],
         permutations: &[Permutation],
         action: RotationMagneticMomentAction,
     ) -> Result<Self, MoyoError> {
-        // Symmetrize magnetic moments by magnetic space group
+        // Symmetrize magnetic moments by magnetic space group in the Cartesian frame of the input cell,
+        // in which `cart_rotations` are expressed, and then rotate them because the standardization
+        // rotates the ref cell.
         let prim_std_magnetic_moments = Self::symmetrize_magnetic_moments(
-            &prim_std_magnetic_moments_tmp,
-            &cart_rotations,
-            &time_reversals,
-            &permutations,
+            prim_magnetic_moments,
+            cart_rotations,
+            time_reversals,
+            permutations,
             action,
-        );
+        )
+        .iter()
+        .map(|m| m.act_rotation(&ref_std_cell.rotation_matrix, action))
+        .collect::<Vec<_>>();
         let prim_std_mag_cell =
             MagneticCell::from_cell(ref_std_cell.prim_cell.clone(), prim_std_magnetic_moments);
 
